@@ -166,14 +166,14 @@ func runC19(args []string) error {
 		return err
 	}
 	thorough := *tier == "thorough"
-	nMain, nWild := 34, 8
+	nMain, nWild, shards := 34, 8, 16
 	if thorough {
-		nMain, nWild = 900, 200
+		nMain, nWild, shards = 1500, 300, 96
 	}
 	root := newRng(*seed)
 	sm := newSummary("C19")
 	distinct := distinctSet{}
-	timeout := 20 * time.Second
+	timeout := 60 * time.Second
 
 	// ------------------------------------------------------------ programs
 	var progs []c19Prog
@@ -395,7 +395,6 @@ func runC19(args []string) error {
 	})
 
 	// ------------------------------------------------------------ cases files, summary
-	const shards = 16
 	bodies := make([]strings.Builder, shards)
 	counts := make([]int, shards)
 	// balance the shards: heaviest program first onto the lightest shard
@@ -601,6 +600,11 @@ func runC19(args []string) error {
 			return err
 		}
 		sm.CasesFiles = append(sm.CasesFiles, name)
+	}
+	if sk := sm.Distribution["model-skipped"] + 8*sm.Distribution["program-skipped"]; sk*10 > sm.Evaluations {
+		// the tie would silently not be checked
+		sm.HarnessViolations = append(sm.HarnessViolations, refMismatch{ID: 0, Region: "", Input: sm.Notes,
+			Note: fmt.Sprintf("%d of %d sessions could not be evaluated in the model (instrumentation or replay machine does not cover them)", sk, sm.Evaluations)})
 	}
 	sort.Strings(sm.CasesFiles)
 	if sm.CasesFiles == nil {
